@@ -1678,6 +1678,27 @@ class Sim:
                 rg.fields[0] = v + 1
                 return ("value", Adt("std::option::Option", 1, [v]))
             return ("value", Adt("std::option::Option", 0, []))
+        # comparison and arithmetic operator traits on integers whose static type is a type parameter of a generic
+        # helper (`fn mul_add_overflows<T: PartialOrd + Div<Output = T> + ..>`): the values decide
+        if len(d) == 2 and isinstance(d[0], int) and isinstance(d[1], int) and not isinstance(d[0], bool):
+            for m, f in (("lt", lambda a, b: a < b), ("le", lambda a, b: a <= b), ("gt", lambda a, b: a > b),
+                         ("ge", lambda a, b: a >= b)):
+                if has("std::cmp::PartialOrd::" + m):
+                    return ("value", int(f(d[0], d[1])))
+            ty0 = self._tyenv[-1].get(substs[0], substs[0]).lstrip("&") if substs else ""
+            if has("std::ops::Div::div") and d[1] != 0 and "resolved" not in c:
+                q = abs(d[0]) // abs(d[1]) * (1 if (d[0] >= 0) == (d[1] >= 0) else -1)
+                return ("value", wrap(q, ty0) if ty0 in INT_BITS else q)
+            if has("std::ops::Rem::rem") and d[1] != 0 and "resolved" not in c:
+                rm = abs(d[0]) % abs(d[1]) * (1 if d[0] >= 0 else -1)
+                return ("value", wrap(rm, ty0) if ty0 in INT_BITS else rm)
+            for tr, f in (("std::ops::Add::add", lambda a, b: a + b), ("std::ops::Sub::sub", lambda a, b: a - b),
+                          ("std::ops::Mul::mul", lambda a, b: a * b)):
+                if has(tr) and "resolved" not in c and ty0 in INT_BITS:
+                    v = f(d[0], d[1])
+                    if wrap(v, ty0) != v:
+                        return ("panic", "arithmetic overflow")
+                    return ("value", v)
         # operators on `&u8` / `u8` operands (`octet >> 6`, `octet & 7`)
         for tr, fnop in (("std::ops::Shr::shr", lambda a, b: a >> b), ("std::ops::Shl::shl", lambda a, b: a << b),
                          ("std::ops::BitAnd::bitand", lambda a, b: a & b), ("std::ops::BitOr::bitor", lambda a, b: a | b)):
